@@ -90,3 +90,140 @@ lemma(f'{I}.preconditioned_grad', 'solves_damped_kronecker_system', props=['C01'
       goal='mul(mul(damped(Gm, ng, lam), mul(mul(inv(damped(Gm, ng, lam)), D), inv(damped(A, na, lam)))), damped(A, na, lam)) == D',
       theory=['ring'],
       text='(G + lam I) V (A + lam I) = D for V = (G + lam I)^-1 D (A + lam I)^-1')
+
+# ================================================================== eigen method
+E = 'kfac.layers.eigen:KFACEigenLayer'
+EFIELDS = ['self.prediv_eigenvalues', 'self._qa', 'self._qg', 'self._da', 'self._dg', 'self._dgda']
+contract(f'{E}.__init__', props=['C05', 'C13'], params=dict(INIT_PARAMS, prediv_eigenvalues=KBool), requires=INIT_REQ,
+         ensures=[('no_second_order_data', 'self._qa is None and self._qg is None and self._da is None and self._dg is None and self._dgda is None'),
+                  ('initial_state_empty', STATE0),
+                  ('config', 'self.module is module and self.tdc is tdc and self.inv_dtype is inv_dtype and self.symmetric_factors '
+                             'and self.prediv_eigenvalues == prediv_eigenvalues')],
+         modifies=BASE_FIELDS + EFIELDS)
+
+SO = ['_qa', '_qg', '_da', '_dg', '_dgda']
+SO_PENDING = sum([PENDING(f) for f in SO], [])
+SYM = [('symmetric_helper', 'self.symmetric_factors')]
+contract(
+    f'{E}.compute_a_inv', props=['C01', 'C09', 'C13'], params={'damping': KDyn},
+    requires=DAMP + SYM + PENDING('_a_factor') + [('factor_2d', 'implies(self._a_factor is not None, len(awaited(self._a_factor).shape) == 2)')],
+    raises=[('RuntimeError', 'self._a_factor is None')],
+    ensures=[
+        ('eigenvectors', 'is_tensor(self._qa) and val(self._qa) == eigvecs(old(val(awaited(self._a_factor))))'),
+        ('clamped_eigenvalues', 'is_tensor(self._da) and val(self._da) == clampmin(eigvals(old(val(awaited(self._a_factor)))), 0.0)'),
+        ('stored_in_inverse_dtype', 'implies(self.inv_dtype is not None, self._qa.dtype is self.inv_dtype and self._da.dtype is self.inv_dtype)'),
+        ('shapes', 'self._qa.shape == old(awaited(self._a_factor).shape) and len(self._da.shape) == 1 and self._da.shape[0] == old(awaited(self._a_factor).shape[0])'),
+        ('factor_untouched', 'val(awaited(self._a_factor)) == old(val(awaited(self._a_factor)))'),
+    ],
+    modifies=['self._qa', 'self._da', 'self._a_factor', '*.resolved', 'ghost:next_sid'],
+)
+contract(
+    f'{E}.compute_g_inv', props=['C01', 'C09', 'C13'], params={'damping': KDyn},
+    requires=DAMP + SYM + PENDING('_g_factor') + PENDING('_da') + [
+        ('factor_2d', 'implies(self._g_factor is not None, len(awaited(self._g_factor).shape) == 2)'),
+        # compute_a_inv ran before on this rank (factors co-located when eigenvalues are pre-divided)
+        ('a_eigenvalues_present', 'self._da is not None and len(awaited(self._da).shape) == 1')],
+    raises=[('RuntimeError', 'self._g_factor is None')],
+    lets={'dgv': 'clampmin(eigvals(old(val(awaited(self._g_factor)))), 0.0)'},
+    ensures=[
+        ('eigenvectors', 'is_tensor(self._qg) and val(self._qg) == eigvecs(old(val(awaited(self._g_factor))))'),
+        ('clamped_eigenvalues', 'implies(not self.prediv_eigenvalues, is_tensor(self._dg) and val(self._dg) == dgv and self._da is old(awaited(self._da)))'),
+        # pre-division bakes the damping of THIS refresh into 1 / (dg (x) da + damping)
+        ('predivided', 'implies(self.prediv_eigenvalues, is_tensor(self._dgda) and self._dg is None and self._da is None and '
+                       'val(self._dgda) == rdiv(1, sadd(outer(dgv, old(val(awaited(self._da)))), damping)))'),
+        ('factor_untouched', 'val(awaited(self._g_factor)) == old(val(awaited(self._g_factor)))'),
+    ],
+    modifies=['self._qg', 'self._dg', 'self._da', 'self._dgda', 'self._g_factor', '*.resolved', 'ghost:next_sid'],
+)
+contract(
+    f'{E}.preconditioned_grad', props=['C01', 'C10'], params={'damping': KDyn},
+    requires=GRADS + SO_PENDING + DAMP,
+    raises=[('RuntimeError', 'self._qa is None or self._qg is None or (not self.prediv_eigenvalues and self._da is None) '
+                             'or (not self.prediv_eigenvalues and self._dg is None) or (self.prediv_eigenvalues and self._dgda is None)')],
+    lets={'Qa': 'old(val(awaited(self._qa)))', 'Qg': 'old(val(awaited(self._qg)))',
+          'v1': 'mul(mul(tr(Qg), old(combined_grad(self.module))), Qa)',
+          'v2': '(hmul(v1, old(val(awaited(self._dgda)))) if self.prediv_eigenvalues else '
+                'hdiv(v1, sadd(outer(old(val(awaited(self._dg))), old(val(awaited(self._da)))), damping)))'},
+    ensures=[
+        ('eigenbasis_solve', 'is_tensor(self._grad) and val(self._grad) == mul(mul(Qg, v2), tr(Qa))'),
+        ('gradient_dtype_restored', 'self._grad.dtype is old(self.module.module.weight.grad.dtype)'),
+        ('module_gradients_untouched', 'val(self.module.module.weight.grad) == old(val(self.module.module.weight.grad)) and '
+                                       'self.module.module.weight.grad is old(self.module.module.weight.grad)'),
+    ],
+    modifies=['self._grad'] + [f'self.{f}' for f in SO] + ['*.resolved', 'ghost:next_sid'],
+)
+contract(
+    f'{E}.memory_usage', props=['C13'], result=KDict(KStr, KInt),
+    requires=PENDING('_a_factor') + PENDING('_g_factor') + SO_PENDING,
+    ensures=[('six_entries', 'len(result) == 6'),
+             ('second_order_bytes', "result['a_inverses'] == bytes_of(old(awaited(self._qa))) + bytes_of(old(awaited(self._da))) and "
+                                    "result['g_inverses'] == bytes_of(old(awaited(self._qg))) + bytes_of(old(awaited(self._dg))) + bytes_of(old(awaited(self._dgda)))"),
+             ('factor_bytes', "result['a_factors'] == bytes_of(old(awaited(self._a_factor))) and result['g_factors'] == bytes_of(old(awaited(self._g_factor))) "
+                              "and result['a_batch'] == bytes_of(self._a_batch) and result['g_batch'] == bytes_of(self._g_batch)")],
+    modifies=['self._a_factor', 'self._g_factor'] + [f'self.{f}' for f in SO] + ['*.resolved'],
+)
+
+BC_REQ = [('member_of_group', 'in_group(group)'), ('root_is_member', 'rank_in_group(src, group)'), ('tdc_present', 'self.tdc is not None')]
+contract(
+    f'{E}.broadcast_a_inv', props=['C02', 'C03', 'C09', 'C13'], params={'src': KInt, 'group': G},
+    requires=BC_REQ + PENDING('_qa') + PENDING('_da') + PENDING('_a_factor') + [
+        ('distinct_buffers', 'implies(self._qa is not None and self._da is not None, awaited(self._qa) is not awaited(self._da))'),
+        ('receiver_knows_the_shape', 'implies((self._qa is None or (not self.prediv_eigenvalues and self._da is None)) and my_rank() != src, '
+                                     'is_tensor(self._a_factor) and len(self._a_factor.shape) == 2)')],
+    raises=[('RuntimeError', '(self._qa is None or (not self.prediv_eigenvalues and self._da is None)) and my_rank() == src')],
+    ensures=[
+        ('holds_eigenvectors', 'self._qa is not None and implies(not self.prediv_eigenvalues, self._da is not None)'),
+        ('root_keeps_values', 'implies(my_rank() == src, val(awaited(self._qa)) == old(val(awaited(self._qa))))'),
+        ('receive_buffers_match_sender', 'implies(old(self._qa) is None, awaited(self._qa).shape == old(self._a_factor.shape) and awaited(self._qa).dtype is self.inv_dtype)'),
+        ('alone_nothing_sent', 'implies(group_size(group) == 1, trace() == old(trace()))'),
+        ('events', 'implies(group_size(group) != 1, len(trace()) == len(old(trace())) + (1 if self.prediv_eigenvalues else 2))'),
+    ],
+    modifies=['self._qa', 'self._da', 'self._a_factor', '*.resolved', '*.val', 'ghost:trace', 'ghost:next_sid'],
+)
+MISSING_G = ('(self._qg is None or (not self.prediv_eigenvalues and self._dg is None) or (self.prediv_eigenvalues and self._dgda is None))')
+contract(
+    f'{E}.broadcast_g_inv', props=['C02', 'C03', 'C09', 'C13'], params={'src': KInt, 'group': G},
+    requires=BC_REQ + PENDING('_qg') + PENDING('_dg') + PENDING('_dgda') + PENDING('_g_factor') + PENDING('_a_factor') + [
+        ('distinct_buffers', 'implies(self._qg is not None and self._dg is not None, awaited(self._qg) is not awaited(self._dg)) and '
+                             'implies(self._qg is not None and self._dgda is not None, awaited(self._qg) is not awaited(self._dgda))'),
+        ('receiver_knows_the_shapes', f'implies({MISSING_G} and my_rank() != src, is_tensor(self._g_factor) and len(self._g_factor.shape) == 2 '
+                                      'and implies(self.prediv_eigenvalues, is_tensor(self._a_factor) and len(self._a_factor.shape) == 2))')],
+    raises=[('RuntimeError', f'{MISSING_G} and my_rank() == src')],
+    ensures=[
+        ('holds_data', 'self._qg is not None and implies(not self.prediv_eigenvalues, self._dg is not None) and implies(self.prediv_eigenvalues, self._dgda is not None)'),
+        ('root_keeps_values', 'implies(my_rank() == src, val(awaited(self._qg)) == old(val(awaited(self._qg))))'),
+        ('alone_nothing_sent', 'implies(group_size(group) == 1, trace() == old(trace()))'),
+        ('events', 'implies(group_size(group) != 1, len(trace()) == len(old(trace())) + 2)'),
+    ],
+    modifies=['self._qg', 'self._dg', 'self._dgda', 'self._g_factor', 'self._a_factor', '*.resolved', '*.val', 'ghost:trace', 'ghost:next_sid'],
+)
+
+# C01 (eigen method): with A+ = Qa diag(da) Qa^T, G+ = Qg diag(dg) Qg^T (Q orthogonal, eigenvalues clamped >= 0),
+# the formula proved for preconditioned_grad solves  G+ V A+ + lam V = D.   Calc-style steps keep E-matching cheap.
+EIG_LETS = {
+    'v1': 'mul(mul(tr(Qg), D), Qa)',
+    'v2': 'hdiv(v1, sadd(outer(dg, da), lam))',
+    'V': 'mul(mul(Qg, v2), tr(Qa))',
+    'Gp': 'mul(mul(Qg, diag(dg)), tr(Qg))',
+    'Ap': 'mul(mul(Qa, diag(da)), tr(Qa))',
+    'core': 'mul(mul(diag(dg), v2), diag(da))',
+}
+lemma(f'{E}.preconditioned_grad', 'solves_damped_eigen_system', props=['C01'],
+      vars={'Qa': KMat, 'Qg': KMat, 'da': KMat, 'dg': KMat, 'D': KMat, 'lam': KReal},
+      hyps=['mul(tr(Qa), Qa) == eye()', 'mul(Qa, tr(Qa)) == eye()', 'mul(tr(Qg), Qg) == eye()', 'mul(Qg, tr(Qg)) == eye()',
+            'nonneg(da)', 'nonneg(dg)', 'lam > 0'],
+      lets=EIG_LETS,
+      steps=[('left', 'mul(Gp, V) == mul(mul(Qg, mul(diag(dg), v2)), tr(Qa))'),
+             ('both', 'mul(mul(Gp, V), Ap) == mul(mul(Qg, core), tr(Qa))'),
+             ('scaled', 'smul(lam, V) == mul(mul(Qg, smul(lam, v2)), tr(Qa))'),
+             ('sum', 'add(mul(mul(Gp, V), Ap), smul(lam, V)) == mul(mul(Qg, add(core, smul(lam, v2))), tr(Qa))'),
+             ('hadamard', 'add(core, smul(lam, v2)) == v1'),
+             ('back', 'mul(mul(Qg, v1), tr(Qa)) == D')],
+      goal='add(mul(mul(Gp, V), Ap), smul(lam, V)) == D',
+      theory=['ring', 'hadamard'],
+      text='G+ V A+ + lam V = D for V = Qg ((Qg^T D Qa) ./ (dg da^T + lam)) Qa^T')
+lemma(f'{E}.preconditioned_grad', 'predivision_is_division', props=['C01'],
+      vars={'v1': KMat, 'da': KMat, 'dg': KMat, 'lam': KReal},
+      goal='hmul(v1, rdiv(1, sadd(outer(dg, da), lam))) == hdiv(v1, sadd(outer(dg, da), lam))',
+      theory=['hadamard'],
+      text='with pre-divided eigenvalue products (damping baked in at refresh) the same V is obtained')
